@@ -22,8 +22,9 @@ SRC="$(mktemp -d /tmp/scsrc.XXXXXX)"; cp "$DST/patch.diff" "$SRC/"
 S="$(mktemp -d /tmp/sc.XXXXXX)/otto"; mkdir -p "$S"; rsync -a --exclude .git /repo/ "$S/"
 H=$(printf '%s' "$S" | sha1sum | cut -c1-10)
 trap 'rm -rf "$(dirname "$S")" "$ROOT/build/alt-$H" "$SRC"' EXIT
+RACEFLAG=""; [ -f "$DST/RACE" ] && RACEFLAG="-race"   # a demonstration that only the race detector fails
 rundemo() { # in $S
-  if [ -f "$SRC/demo_test.go" ]; then cp "$SRC/demo_test.go" "$S/zz_seeded_demo_test.go"; (cd "$S" && go test -vet=off -run TestSeeded -count=1 . >/dev/null 2>&1); rc=$?; rm -f "$S/zz_seeded_demo_test.go"; return $rc
+  if [ -f "$SRC/demo_test.go" ]; then cp "$SRC/demo_test.go" "$S/zz_seeded_demo_test.go"; (cd "$S" && go test $RACEFLAG -vet=off -run TestSeeded -count=1 . >/dev/null 2>&1); rc=$?; rm -f "$S/zz_seeded_demo_test.go"; return $rc
   else mkdir -p "$S/zzdemo"; cp "$SRC/demo/main.go" "$S/zzdemo/main.go"; (cd "$S" && go run ./zzdemo >/dev/null 2>&1); rc=$?; rm -rf "$S/zzdemo"; return $rc; fi
 }
 rundemo; base=$?
